@@ -453,10 +453,115 @@ DIRECTED_PROGRAMS = {
 }
 
 
+def order_sensitive(prog):
+    """True when some operator / argument list has one operand with a visible effect (it prints, writes a mutable global
+    or calls through a function value - directly or in a function it calls) and another operand that has one too or reads
+    a mutable global.  C leaves the order of evaluation of operands unspecified (the native engine's evaluation-order
+    cells belong to C02); the generator keeps such operand lists apart except in its `(/ e (+ (abs g) 1))` shape, so this
+    filter drops only a few programs."""
+    mut = set()
+    for m in list(prog.modules) + [prog.main]:
+        for n, t, is_mut, e in m.globals:
+            if is_mut:
+                mut.add(n)
+    funcs = {f.name: f for f in prog.all_funcs()}
+
+    def nodes(x):
+        stack = [x]
+        while stack:
+            y = stack.pop()
+            if isinstance(y, list):
+                stack.extend(y)
+                continue
+            if not isinstance(y, tuple) or not y:
+                continue
+            if not isinstance(y[0], str):
+                stack.extend(z for z in y if isinstance(z, (tuple, list)))
+                continue
+            yield y
+            stack.extend(z for z in y[1:] if isinstance(z, (tuple, list)))
+
+    # per function: writes (prints / sets a mutable global / calls through a value), reads a mutable global, callees
+    info = {}
+    for name, f in funcs.items():
+        w = r = False
+        callees = set()
+        for y in nodes(f.body):
+            k = y[0]
+            if k == "print" or (k == "set" and y[1] in mut) or k == "callv":
+                w = True
+            elif k == "var" and y[1] in mut:
+                r = True
+            elif k == "call":
+                if y[1] in funcs:
+                    callees.add(y[1])
+                elif y[1] not in gen.BUILTIN_NAMES:
+                    w = True            # a function-typed variable or parameter
+        info[name] = [w, r, callees]
+    changed = True
+    while changed:
+        changed = False
+        for name, (w, r, callees) in info.items():
+            for c in callees:
+                if info[c][0] and not info[name][0]:
+                    info[name][0] = True
+                    changed = True
+                if info[c][1] and not info[name][1]:
+                    info[name][1] = True
+                    changed = True
+
+    def flags(x):
+        eff = rd = False
+        for y in nodes(x):
+            k = y[0]
+            if k == "var" and y[1] in mut:
+                rd = True
+            elif k == "callv":
+                eff = True
+            elif k == "call":
+                if y[1] in funcs:
+                    eff = eff or info[y[1]][0]
+                    rd = rd or info[y[1]][1]
+                elif y[1] not in gen.BUILTIN_NAMES:
+                    eff = True
+        return eff, rd
+
+    def clash(operands):
+        fl = [flags(o) for o in operands]
+        for i, (e, _) in enumerate(fl):
+            if e and any(j != i and (e2 or r2) for j, (e2, r2) in enumerate(fl)):
+                return True
+        return False
+
+    for f in funcs.values():
+        for x in nodes(f.body):
+            k = x[0]
+            ops = None
+            if k == "bin" and x[1] not in ("and", "or"):
+                ops = [x[2], x[3]]
+            elif k == "call":
+                ops = list(x[2])
+            elif k == "callv":
+                ops = [x[1]] + list(x[2])
+            elif k == "arr":
+                ops = list(x[2])
+            elif k == "tuple":
+                ops = list(x[1])
+            elif k == "structlit":
+                ops = [v for _, v in x[2]]
+            elif k == "unionlit":
+                ops = [v for _, v in x[3]]
+            if ops is not None and len(ops) >= 2 and clash(ops):
+                return True
+    return False
+
+
 def _gen_own(args):
     seed, size = args
     prog, exp = gen.make_program(random.Random(seed), OWN_FEATURES, size)
     if prog is None:
+        return None
+    if order_sensitive(prog):
         return None
     try:
         prog.files()
@@ -848,11 +953,6 @@ class DAGen:
         if k < 0.40:
             return self.pop(s)
         if k < 0.50:
-            if d["k"] == "t" and r.random() < 0.2:
-                i = r.choice([-1, n, n + 5])       # defined for struct arrays: message on stderr, NULL / no effect
-                self.h.c("ag %d %d" % (s, i), "NULL", n)
-                self.count("ag", "t")
-                return True
             if n == 0:
                 return False
             i = self.index(n)
@@ -860,11 +960,6 @@ class DAGen:
             self.count("ag", d["k"])
             return True
         if k < 0.60:
-            if d["k"] == "t" and d["ssize"] is not None and r.random() < 0.15:
-                tok, shown = self.value(s)
-                self.h.c("as %d %d %s" % (s, r.choice([-1, n, n + 3]), tok), "ok", n)
-                self.count("as", "t")
-                return True
             if n == 0:
                 return False
             v = self.value(s)
@@ -1721,6 +1816,8 @@ FAILURE_CELLS = {
     "dyn_array.get_len": (["an 0 i", "ap 0 1", "ag 0 1"], "abort"), "dyn_array.get_neg": (["an 0 s", "ap 0 61", "ag 0 -1"], "abort"),
     "dyn_array.set_len": (["an 0 f", "as 0 0 0000000000000000"], "abort"), "dyn_array.remove_empty": (["an 0 b", "ar 0 0"], "abort"),
     "dyn_array.remove_len": (["an 0 a", "an 1 i", "ap 0 1", "ar 0 1"], "abort"), "dyn_array.push_wrong_kind": (["an 0 t", "ap 0 0102", "ap 0 010203"], "abort"),
+    "dyn_array.get_struct_len": (["an 0 t", "ap 0 0102", "ag 0 1"], "abort"), "dyn_array.get_struct_neg": (["an 0 t", "ap 0 0102", "ag 0 -1"], "abort"),
+    "dyn_array.set_struct_len": (["an 0 t", "ap 0 0102", "as 0 1 0304"], "abort"),
 }
 
 
@@ -1991,8 +2088,9 @@ def run_failure_cells(ctx, sc, binp, cov):
             ctx.violation(san_key(sig), "failure cell %s: sanitizer report %s in %s\n%s" % (name, sig[0], ",".join(sig[1]), (r.sanitizer_report() or "")[:1200]), files)
         elif how == "exit" and r.rc == 1 and reached and "Error:" in r.errtext():
             out[name] = "exit(1)+message"
-        elif how == "abort" and (r.sig == 6 or (sig is not None and sig[0] == "ABRT")) and reached and "Assertion" in r.errtext():
-            out[name] = "assert"
+        elif how == "abort" and (r.sig == 6 or (sig is not None and sig[0] == "ABRT")) and reached and \
+                ("Assertion" in r.errtext() or "Index out of bounds" in r.errtext()):
+            out[name] = "assert" if "Assertion" in r.errtext() else "message+abort"
         else:
             out[name] = "unexpected rc=%s sig=%s" % (r.rc, r.sig)
             ctx.violation("model|failure-cell|%s|not-the-defined-failure" % name,
